@@ -48,6 +48,17 @@ def run_property(prop, tier, quiet=False):
                 hits.append(k.get("id", r.construct))
         else:
             unlisted.append(r)
+    if tier == "thorough" and not unlisted and "VERIF_REPO" not in os.environ:
+        # thorough = the same total rules + a measurement of their discriminating power on today's tree: the property's
+        # mutants must be reported, its behaviour-preserving rewrites must not.  Informational (a weaker checker is not
+        # a violation of the property): recorded in the evidence, never changes the exit status.
+        from . import selftest
+
+        adq = selftest.adequacy(prop)
+        ctx.sample({"mutation_adequacy": adq})
+        print("  adequacy: %d/%d mutants reported, %d/%d rewrites silent%s%s" % (
+            adq["caught"], adq["mutants"], adq["silent"], adq["rewrites"],
+            ("; MISSED %s" % adq["missed"]) if adq["missed"] else "", ("; NOISY %s" % adq["noisy"]) if adq["noisy"] else ""))
     status = "violated" if unlisted else "holds"
     core.write_evidence(ctx, mod.LEVEL, mod.EXPLANATION, mod.ASSUMPTIONS, len(unlisted), hits, status, _lk(mod, ctx))
     n_inst = sum(len(r.instances) for r in ctx.rules.values())
